@@ -1,6 +1,7 @@
 package main
 
 import (
+	"golang.org/x/net/html/charset"
 	"io"
 	"encoding/json"
 	"bytes"
@@ -154,6 +155,9 @@ b --><a k="v&#10;w">t</a></r>`,
 	``,
 	`<r xmlns:p="urn:u1"><a p:id="7" id="3" xml:lang="en">t</a><p:b p:k="v" k="w"><c p:z="1" xmlns:q="urn:u2" q:z="2"/></p:b></r>`,
 	`<r xmlns:p="urn:u1" xmlns:q="urn:u2"><a q:id="1" p:id="2">x</a><a id="0" xml:space="preserve"> y </a></r>`,
+	// declared encodings other than UTF-8 (the bytes are in that encoding)
+	"<?xml version=\"1.0\" encoding=\"ISO-8859-1\"?><r><a id=\"\xe9\">caf\xe9</a><a>2</a></r>",
+	"<?xml version=\"1.0\" encoding=\"windows-1252\"?><r><a>\x80 5</a><a>\x93q\x94</a></r>",
 }
 var cliHtmlDocs = []string{`<!DOCTYPE html><html><body><a id="1">x</a><p>y<a>z</a></p></body></html>`, `<html><body>no doctype</body></html>`, `<!DOCTYPE html><a>1<a>2`}
 var cliJsonDocs = []string{`{"a": 1, "b": [1, 2, {"a": "x"}]}`, `[{"a": true}, {"a": null}]`, `{"a": 1`, `"scalar"`, `{"a": "line\nbreak"}`}
@@ -270,10 +274,48 @@ func parseLikeCli(path string, data []byte, run *cliRun) (store.Cursor, bool) {
 			}
 		}
 	}
+	if pt == "xml" && (err != nil || c == nil) {
+		// "files are parsed ...; unparsable inputs produce a diagnostic": whether a file IS parsable XML is decided by an
+		// encoding/xml decoder of the harness's own, configured like the command's (strictness, entities, charset reader)
+		if xmlParsableIndependently(data, run) {
+			cliAlarm = fmt.Sprintf("%s is well-formed XML for encoding/xml under the command's settings, but the library's route with options rejects it: %v", path, err)
+		}
+	}
 	if err != nil || c == nil {
 		return nil, false
 	}
 	return c, true
+}
+
+// cliAlarm: set by parseLikeCli when the library refuses what an independent decoder accepts
+var cliAlarm string
+
+func xmlParsableIndependently(data []byte, run *cliRun) bool {
+	d := xml.NewDecoder(bytes.NewReader(data))
+	d.CharsetReader = charset.NewReaderLabel
+	d.Strict = !run.unstrict
+	ents := map[string]string{}
+	for _, e := range run.ents {
+		ents[e[0]] = e[1]
+	}
+	d.Entity = ents
+	depth, elems := 0, 0
+	for {
+		t, err := d.Token()
+		if err == io.EOF {
+			return depth == 0 && elems > 0
+		}
+		if err != nil {
+			return false
+		}
+		switch t.(type) {
+		case xml.StartElement:
+			depth++
+			elems++
+		case xml.EndElement:
+			depth--
+		}
+	}
 }
 
 func shapeOf(c store.Cursor, b *strings.Builder) {
@@ -535,6 +577,10 @@ func famC20(rn *Runner) {
 				continue
 			}
 			c, ok := parseLikeCli(p, data, run)
+			if cliAlarm != "" && !rn.TooMany() {
+				rn.Report(&Replay{Family: "cli-independent-xml", Clause: "a parsable file is parsed", Kind: "xml", Input: string(data), Text: run.expr, Impl: "rejected", Model: "parsable", Note: cliAlarm}, cliAlarm)
+			}
+			cliAlarm = ""
 			if !ok {
 				fileSx = append(fileSx, fmt.Sprintf("(%s %s none none)", sxStr(p), isStdin))
 				wantDiag++
@@ -739,6 +785,7 @@ func decodeStr(ans string) string {
 // ---- C14 ----
 
 func famC14(rn *Runner) {
+	noRoutes = true
 	ndocs := rn.Scale(4, 60)
 	workers := rn.Scale(12, 64)
 	for di := 0; di < ndocs && !rn.TooMany(); di++ {
